@@ -13,7 +13,7 @@ i.e. inside the real loop at the place where the real XML-RPC channel runs them.
 
 Nothing in /repo is modified; module attributes are restored by close().
 """
-import errno, os as _os, signal, sys, types
+import errno, operator as _operator, os as _os, signal, sys, types
 
 TICK = 1024
 
@@ -41,6 +41,7 @@ class Pipe(object):
         self.child_writer = None   # pid of the child holding the write end
         self.child_reader = None
         self.capacity = 65536
+        self.blocked = []          # [name, pid, chan, bytearray]: what a child blocked in write(2) has not yet got into the pipe
 
 
 class Child(object):
@@ -52,19 +53,55 @@ class Child(object):
         self.dies_on = None        # set of signals that kill it; None = every signal
 
 
+def _int(x):
+    """argument conversion of the real system-call wrappers: None, str, bytes, float ... are a TypeError (as in
+    os.close(None)), never an OSError -- so an `except OSError` around the call does not swallow them"""
+    if isinstance(x, float):
+        raise TypeError("'float' object cannot be interpreted as an integer")
+    try:
+        return _operator.index(x)
+    except TypeError:
+        raise TypeError("'%s' object cannot be interpreted as an integer" % type(x).__name__)
+
+
+def _fd(x):
+    v = _int(x)
+    if not -(1 << 31) <= v < (1 << 31):
+        raise OverflowError('fd is %s than %s' % (('greater', 'maximum') if v > 0 else ('less', 'minimum')))
+    return v
+
+
+def _fileno(x):
+    """fcntl.fcntl accepts an int or an object with fileno()"""
+    if isinstance(x, int):
+        return _fd(x)
+    fn = getattr(x, 'fileno', None)
+    if fn is None:
+        raise TypeError('argument must be an int, or have a fileno() method')
+    return _fd(fn())
+
+
 class FakeOS(object):
-    """os module stand-in for supervisor.options"""
+    """os module stand-in for supervisor.options; arguments the real calls reject are rejected in the same way"""
     def __init__(self, kernel):
         self.k = kernel
     def __getattr__(self, name):
         return getattr(_os, name)
     def fork(self): return self.k.fork()
-    def waitpid(self, pid, flags): return self.k.waitpid(pid, flags)
-    def kill(self, pid, sig): return self.k.kill(pid, sig)
+    def waitpid(self, pid, flags): return self.k.waitpid(_int(pid), _int(flags))
+    def kill(self, pid, sig): return self.k.kill(_int(pid), _int(sig))
     def pipe(self): return self.k.pipe()
-    def close(self, fd): return self.k.close(fd)
-    def read(self, fd, n): return self.k.read(fd, n)
-    def write(self, fd, data): return self.k.write(fd, data)
+    def close(self, fd): return self.k.close(_fd(fd))
+    def read(self, fd, n):
+        fd, n = _fd(fd), _int(n)
+        if n < 0:
+            raise OSError(errno.EINVAL, 'Invalid argument')
+        return self.k.read(fd, n)
+    def write(self, fd, data):
+        fd = _fd(fd)
+        if isinstance(data, str):
+            raise TypeError("a bytes-like object is required, not 'str'")
+        return self.k.write(fd, bytes(memoryview(data)))
     def stat(self, fn, *a, **kw):
         if isinstance(fn, str) and fn.startswith('/sim/'):
             return self.k.stat(fn)
@@ -84,11 +121,15 @@ class FakeFcntl(object):
     def __init__(self, kernel=None):
         self.k = kernel
     def fcntl(self, fd, op, arg=0):
+        fd, op = _fileno(fd), _int(op)
         if self.k is not None:
+            self.k.fault('fcntl')
+            if fd not in self.k.fds:
+                raise OSError(errno.EBADF, 'Bad file descriptor')
             if op == self.F_GETFL:
                 return self.k.fdflags.get(fd, 0)
             if op == self.F_SETFL:
-                self.k.fdflags[fd] = arg
+                self.k.fdflags[fd] = _int(arg)
         return 0
     def __getattr__(self, name):
         import fcntl as _f
@@ -207,12 +248,14 @@ class SimKernel(object):
               startretries, exitcodes, stopsignal, stopwaitsecs, stopasgroup, killasgroup,
               dies_on ('any' | 'kill' (only SIGKILL)), logdir (optional: real stdout/stderr log files)
               listener (optional dict: events=[names], buffer_size) -> member of an event listener pool
+    loglevel: options.loglevel of the daemon (supervisor.loggers.LevelsByName value; 0 = everything, the default)
     script:   list of steps; each step = (dt_ticks, [actions]); executed at successive poll() calls
               actions: ('exit', name, status) ('exitpid', pid, status) ('write', name, chan, bytes) ('sig', signum)
                        ('rpc', id, 'supervisor.method', args) ('foreign', pid, status) ('fault', call, errno, count)
+                           call in fork pipe fcntl kill waitpid read write (fcntl = the F_GETFL/F_SETFL calls of make_pipes)
                        ('missing', name, bool)  command file of `name` (dis)appears
     """
-    def __init__(self, programs, script, t0=1000000 * TICK, scratch=None, read_chunk=None, ready_rng=None):
+    def __init__(self, programs, script, t0=1000000 * TICK, scratch=None, read_chunk=None, ready_rng=None, loglevel=0):
         import supervisor.options as so, supervisor.process as sp, supervisor.supervisord as sd
         import supervisor.rpcinterface as ri, supervisor.events as ev, supervisor.xmlrpc as xr
         self.mods = (so, sp, sd, ri)
@@ -236,6 +279,7 @@ class SimKernel(object):
         self.pipes_since_fork = []
         self.npipes = 0
         self.faults = {}           # call -> [errno, remaining]
+        self.calls = {}
         self.pending_deaths = []
         self.fault_counts = {}
         self.foreign = {}
@@ -251,7 +295,7 @@ class SimKernel(object):
         o.poller = SimPoller(self)
         o.logger = MemLogger()
         o.identifier = 'sim'; o.nodaemon = True; o.first = True; o.test = False
-        o.loglevel = 0; o.strip_ansi = False; o.minfds = 16; o.server_configs = []; o.httpservers = ()
+        o.loglevel = loglevel; o.strip_ansi = False; o.minfds = 16; o.server_configs = []; o.httpservers = ()
         o.pidfile = _os.path.join(scratch or '/tmp', 'sim.pid')
         o.logfile = None
         o.setsignals = lambda: None
@@ -343,6 +387,7 @@ class SimKernel(object):
         self.rec('event', name=name, rpc=self.in_rpc, **d)
 
     def fault(self, call):
+        self.calls[call] = self.calls.get(call, 0) + 1       # every invocation of a fallible call, by kind
         fa = getattr(self, 'fault_at', None)
         if fa and call in fa:
             n = self.fault_counts.get(call, 0)
@@ -434,6 +479,8 @@ class SimKernel(object):
         for p in (c.stdout, c.stderr):
             if p is not None and p.child_writer == c.pid:
                 p.child_writer = None
+            if p is not None and p.blocked:
+                p.blocked = [b for b in p.blocked if b[1] != c.pid]      # died inside write(2): the rest was never written
         if c.stdin is not None:
             c.stdin.child_reader = None
 
@@ -467,16 +514,43 @@ class SimKernel(object):
             else:
                 self.pending_deaths.append((c.pid, sig))
 
+    def _child_write(self, p, name, pid, chan, data):
+        """a child's write(2) on its end of a pipe: what fits goes into the pipe now (and only that has been written);
+        the child stays blocked with the rest until the parent reads (a pipe holds `capacity` bytes)"""
+        if p.blocked:
+            p.blocked.append([name, pid, chan, bytearray(data)])
+            return
+        room = max(0, p.capacity - len(p.buf))
+        if data[:room]:
+            p.buf += data[:room]
+            self.rec('childwrite', name=name, pid=pid, chan=chan, data=data[:room], pipe=p.id)
+        if data[room:]:
+            p.blocked.append([name, pid, chan, bytearray(data[room:])])
+
+    def _unblock(self, p):
+        while p.blocked and len(p.buf) < p.capacity:
+            name, pid, chan, rest = p.blocked[0]
+            room = p.capacity - len(p.buf)
+            part = bytes(rest[:room]); del rest[:room]
+            p.buf += part
+            self.rec('childwrite', name=name, pid=pid, chan=chan, data=part, pipe=p.id)
+            if not rest:
+                p.blocked.pop(0)
+
     def read(self, fd, n):
         self.fault('read')
         ent = self.fds.get(fd)
         if ent is None:
             raise OSError(errno.EBADF, 'bad fd')
         p, mode = ent
+        if mode != 'r':
+            raise OSError(errno.EBADF, 'not open for reading')
         if p.buf:
+            # at most n bytes, the rest stays in the pipe
             m = min(n, len(p.buf), self.read_chunk(p) if self.read_chunk else n)
             data = bytes(p.buf[:m]); del p.buf[:m]
             self.rec('read', fd=fd, data=data, pipe=p.id)
+            self._unblock(p)
             return data
         if p.child_writer is None and not p.wfds:
             self.rec('read', fd=fd, data=b'', pipe=p.id)
@@ -492,6 +566,8 @@ class SimKernel(object):
         if ent is None:
             raise OSError(errno.EBADF, 'bad fd')
         p, mode = ent
+        if mode != 'w':
+            raise OSError(errno.EBADF, 'not open for writing')
         if p.child_reader is None and not p.rfds:
             raise OSError(errno.EPIPE, 'broken pipe')
         room = p.capacity - len(p.buf)
@@ -557,8 +633,7 @@ class SimKernel(object):
                     if c.name == a[1] and c.state == 'alive':
                         p = c.stdout if a[2] == 'stdout' else c.stderr
                         if p is not None:
-                            p.buf += a[3]
-                            self.rec('childwrite', name=c.name, pid=c.pid, chan=a[2], data=bytes(a[3]), pipe=p.id)
+                            self._child_write(p, c.name, c.pid, a[2], bytes(a[3]))
                         break
             elif k == 'sig':
                 self.options.signal_receiver.receive(a[1], None)
